@@ -18,10 +18,20 @@ inductive Tail : List Instr → Prop
   | restore : Tail [.restoreRun, .catchExit, .quitCb]
   | fin : Tail [.catchExit, .quitCb]
 
-/-- the pending code is `body ++ T` with `T` one of the tails (or only the quit callback is left, or nothing) -/
+/-- the tails above which other code may be pending: before the start, and while the outermost loop runs -/
+def OpenTail (T : List Instr) : Prop := T = [.apprun] ∨ T = [.mainCheck 0, .catchExit, .quitCb]
+
+theorem OpenTail.tail {T : List Instr} (h : OpenTail T) : Tail T := by
+  rcases h with rfl | rfl
+  · exact .pre
+  · exact .main
+
+/-- the pending code is `body ++ T` with `T` the pending `apprun` or the outermost loop test followed by
+`catchExit, quitCb`; or the outermost loop has been left and exactly `restoreRun, catchExit, quitCb` / `catchExit, quitCb` /
+`quitCb` / nothing is left -/
 def Shape (c : Cfg) : Prop :=
-  c.code = [] ∨ c.code = [.quitCb] ∨
-    ∃ body T, c.code = body ++ T ∧ (∀ i ∈ body, isTop i = false) ∧ Tail T
+  c.code = [] ∨ c.code = [.quitCb] ∨ c.code = [.catchExit, .quitCb] ∨ c.code = [.restoreRun, .catchExit, .quitCb] ∨
+    ∃ body T, c.code = body ++ T ∧ (∀ i ∈ body, isTop i = false) ∧ OpenTail T
 
 theorem Tail.plain {T : List Instr} (h : Tail T) :
     ∀ i ∈ T, errCatch i = none ∧ notCatchPS i = true ∧ notEndPI i = true := by
@@ -155,18 +165,8 @@ theorem shape_dropPS {B T : List Instr} {top : Entry} (hB : ∀ i ∈ B, isTop i
   exact ⟨B', fun i hi => hB i (hsuf.subset hi), hdrop⟩
 
 
-/-- the shape after a transition, and: an exit request leaves exactly the quit callback (after the start) or nothing -/
-def ShapeRes (c c' : Cfg) : Prop :=
-  Shape c' ∧ (Tr.exit ∈ newTr c c' → c'.code = [.quitCb] ∨ (c'.code = [] ∧ ¬ AfterStart c))
-
 theorem newTr_eq {c c' : Cfg} {new : List Tr} (h : c'.tr = new ++ c.tr) : newTr c c' = new := by
   simp [Simpleline.newTr, h]
-
-theorem ShapeRes.body {c c' : Cfg} {B T : List Instr} {d : List Tr} (hcode : c'.code = B ++ T) (hB : ∀ i ∈ B, isTop i = false)
-    (hT : Tail T) (htr : c'.tr = d ++ c.tr) (hd : Tr.exit ∉ d) : ShapeRes c c' := by
-  refine ⟨.inr (.inr ⟨B, T, hcode, hB, hT⟩), fun h => ?_⟩
-  rw [newTr_eq htr] at h
-  exact absurd h hd
 
 theorem soft_no_exit {d : List Tr} (h : ∀ t ∈ d, softT t = true) : Tr.exit ∉ d := by
   intro hm; have := h _ hm; simp [softT] at this
@@ -191,28 +191,6 @@ theorem soft_body {rest B T : List Instr} {ins : Instr} {c m : Cfg} (hc : c.code
   · obtain ⟨pushed', suf', hcode', hsuf', -, hpc'⟩ := hm.code.suffix_rest
     rw [hcode']
     exact closedB_append hpc' (closedB_suffix hsuf' (closedB_tail (hc ▸ hcl)))
-
-/-- the shape is preserved by a soft step out of a body instruction -/
-theorem shape_other {rest B T : List Instr} {ins : Instr} {c m c' : Cfg} (hc : c.code = ins :: rest)
-    (hrest : rest = B ++ T) (hB : ∀ i ∈ B, isTop i = false) (hT : Tail T) (hcl : closedB c.code = true)
-    (hm : Soft rest c m) (hf : OtherFin m c') : ShapeRes c c' := by
-  obtain ⟨d, hd, hds⟩ := hm.tr
-  obtain ⟨⟨B', hB', hmcode⟩, hmcl⟩ := soft_body hc hrest hB hT hcl hm
-  cases hf
-  case same => exact .body hmcode hB' hT hd (soft_no_exit hds)
-  case exit pre rest' hcode' hpre =>
-    rw [hmcode] at hcode'
-    have := shape_exit hB' hT hcode' hpre
-    subst this
-    exact ⟨.inr (.inl rfl), fun _ => .inl rfl⟩
-  case err pre x rest' src hcode' hpre hins =>
-    rw [hmcode] at hcode' hmcl
-    obtain ⟨B'', hB'', hafter⟩ := shape_err hB' hT hmcl hcode' hins
-    refine .body (d := enqT m.L (excSig m.nextSid src) :: d) hafter hB'' hT (by simp [excEnq, hd]) ?_
-    intro hm'
-    rcases List.mem_cons.mp hm' with h | h
-    · have := softT_enqT m.L (excSig m.nextSid src); rw [← h] at this; simp [softT] at this
-    · exact soft_no_exit hds h
 
 /-- `code` is `rest` with non-top instructions pushed in front -/
 def CodeC (rest code : List Instr) : Prop := ∃ pushed, code = pushed ++ rest ∧ ∀ i ∈ pushed, isTop i = false
@@ -269,94 +247,6 @@ macro "noExit_tac" : tactic => `(tactic| (
     | apply NoExit.cons (enqT_ne_exit _ _)
     | apply NoExit.cons (by simp)))
 
-theorem ShapeRes.ofC {c c' : Cfg} {rest B T : List Instr} (hrest : rest = B ++ T) (hB : ∀ i ∈ B, isTop i = false) (hT : Tail T)
-    (hcode : CodeC rest c'.code) (htr : NoExit c.tr c'.tr) : ShapeRes c c' := by
-  obtain ⟨pushed, hcode, hp⟩ := hcode
-  obtain ⟨d, htr, hd⟩ := htr
-  refine .body (B := pushed ++ B) (by rw [hcode, hrest, List.append_assoc]) ?_ hT htr hd
-  intro i hi
-  rcases List.mem_append.mp hi with hi | hi
-  · exact hp i hi
-  · exact hB i hi
-
-/-- the shape is preserved by a core step out of a body instruction -/
-theorem shape_core_body {P : Prog} {rest B T : List Instr} {ins : Instr} {c c' : Cfg} (hc : c.code = ins :: rest)
-    (hrest : rest = B ++ T) (hB : ∀ i ∈ B, isTop i = false) (hT : Tail T) (hcl : closedB c.code = true)
-    (hins : isTop ins = false) (h : CoreN P { c with code := rest } ins c') : ShapeRes c c' := by
-  have hclr : closedB (B ++ T) = true := hrest ▸ closedB_tail (hc ▸ hcl)
-  cases h
-  case apprun => cases hins
-  case catchExit => cases hins
-  case quitCbSome => cases hins
-  case quitCbNone => cases hins
-  case popErr pre x rest' src h hcode hpre hx =>
-    simp only at hcode
-    rw [hrest] at hcode
-    obtain ⟨B', hB', hafter⟩ := shape_err hB hT hclr hcode hx
-    exact .body (d := [enqT c.L (excSig c.nextSid src)]) hafter hB' hT (by simp [excEnq])
-      (by simp [Ne.symm (enqT_ne_exit _ _)])
-  case popExit q pre rest' h h2 hcode hpre =>
-    simp only at hcode
-    rw [hrest] at hcode
-    have := shape_exit hB hT hcode hpre
-    subst this
-    exact ⟨.inr (.inl rfl), fun _ => .inl rfl⟩
-  all_goals
-    refine .ofC hrest hB hT ?_ ?_
-    · codeC_tac
-    · noExit_tac
-
-
-theorem shape_cases {c : Cfg} {ins : Instr} {rest : List Instr} (hS : Shape c) (hc : c.code = ins :: rest) :
-    (ins = .quitCb ∧ rest = []) ∨ Tail (ins :: rest) ∨
-    (isTop ins = false ∧ ∃ B T, rest = B ++ T ∧ (∀ i ∈ B, isTop i = false) ∧ Tail T) := by
-  rcases hS with h | h | ⟨body, T, h, hB, hT⟩
-  · rw [hc] at h; cases h
-  · rw [hc] at h; cases h; exact .inl ⟨rfl, rfl⟩
-  · rw [hc] at h
-    cases body with
-    | nil => simp at h; exact .inr (.inl (h ▸ hT))
-    | cons b B =>
-      simp at h
-      obtain ⟨rfl, rfl⟩ := h
-      exact .inr (.inr ⟨hB _ (by simp), B, T, rfl, fun i hi => hB i (by simp [hi]), hT⟩)
-
-theorem ShapeRes.nil {c c' : Cfg} (h : c'.code = []) (hx : Tr.exit ∈ newTr c c' → ¬ AfterStart c) : ShapeRes c c' :=
-  ⟨.inl h, fun hm => .inr ⟨h, hx hm⟩⟩
-
-theorem shape_core_top {P : Prog} {rest : List Instr} {ins : Instr} {c c' : Cfg} (hc : c.code = ins :: rest)
-    (hT : (ins = .quitCb ∧ rest = []) ∨ Tail (ins :: rest)) (h : CoreN P { c with code := rest } ins c') : ShapeRes c c' := by
-  rcases hT with ⟨rfl, rfl⟩ | hT
-  · cases h
-    case quitCbSome d hd =>
-      refine ⟨.inl (by simp [emit_eq]), fun hm => ?_⟩
-      rw [newTr_eq (new := emitTr P ({ c with code := [] } : Cfg) (.quitcb d)) (by simp [emit_eq])] at hm
-      exact absurd hm (soft_no_exit (softT_emitTr _ _ _))
-    case quitCbNone hd => exact ⟨.inl rfl, fun hm => by simp [Simpleline.newTr] at hm⟩
-  · cases hT
-    case pre =>
-      cases h
-      exact .body (B := []) (T := [.mainCheck 0, .catchExit, .quitCb]) (d := []) (by simp [push]) (by simp) .main
-        (by simp [push]) (by simp)
-    case main =>
-      cases h
-      case mainGo hr =>
-        exact .body (B := [.loopCheck]) (T := [.mainCheck 0, .catchExit, .quitCb]) (d := []) (by simp [push])
-          (by simp [isTop]) .main (by simp [push]) (by simp)
-      case mainExit hr =>
-        exact .body (B := []) (T := [.restoreRun, .catchExit, .quitCb]) (d := [.loopReturn 0]) (by simp [push, Cfg.trace])
-          (by simp) .restore (by simp [push, Cfg.trace]) (by simp)
-    case restore =>
-      cases h
-      case restoreFQ hf => exact .body (B := []) (T := [.catchExit, .quitCb]) (d := []) rfl (by simp) .fin rfl (by simp)
-      case restore hf => exact .body (B := []) (T := [.catchExit, .quitCb]) (d := []) rfl (by simp) .fin rfl (by simp)
-    case fin =>
-      cases h
-      exact ⟨.inr (.inl rfl), fun hm => by simp [Simpleline.newTr] at hm⟩
-
-theorem Tail.head_core {ins : Instr} {rest : List Instr} (h : Tail (ins :: rest)) : otherI ins = false := by
-  cases h <;> rfl
-
 theorem raise_exit_error_no_catch {c c' : Cfg} {o : Outcome} (h : c.raise .exit = .error (o, c')) :
     ∀ i ∈ c.code, isCatchExit i = false := by
   rcases catchExit_split c.code with hn | ⟨pre, rest, h1, h2⟩
@@ -368,135 +258,315 @@ theorem not_afterStart_of_mem {c : Cfg} (h : Instr.apprun ∈ c.code) : ¬ After
   have := List.all_eq_true.mp hA _ h
   simp [isApprun] at this
 
+
+theorem mem_newTr {c c' : Cfg} {d : List Tr} (h : c'.tr = d ++ c.tr) {t : Tr} : t ∈ newTr c c' ↔ t ∈ d := by
+  rw [newTr_eq h]
+
+/-- What a transition does to the bottom of the pending code. `B`, `B'` are bodies (no `apprun`, `catchExit`, `quitCb`). -/
+inductive ShapeStep (P : Prog) (c c' : Cfg) : Prop
+  /-- a step of a body instruction that is not a successful exit request: the tail stays -/
+  | body {B B' T : List Instr} (hT : OpenTail T) (hc : c.code = B ++ T) (hB : ∀ i ∈ B, isTop i = false) (hne : B ≠ [])
+      (hcode : c'.code = B' ++ T) (hB' : ∀ i ∈ B', isTop i = false) (hx : Tr.exit ∉ newTr c c') : ShapeStep P c c'
+  /-- a successful exit request (`run()` has been entered): everything up to `catchExit` is dropped -/
+  | exit {B : List Instr} (hc : c.code = B ++ [.mainCheck 0, .catchExit, .quitCb]) (hB : ∀ i ∈ B, isTop i = false) (hne : B ≠ [])
+      (hcode : c'.code = [.quitCb]) (hx : Tr.exit ∈ newTr c c') : ShapeStep P c c'
+  | start (hc : c.code = [.apprun]) (hcode : c'.code = [.mainCheck 0, .catchExit, .quitCb]) (htr : c'.tr = c.tr) : ShapeStep P c c'
+  | loopOn (hc : c.code = [.mainCheck 0, .catchExit, .quitCb]) (hr : c.L.runLoop = true)
+      (hcode : c'.code = [.loopCheck, .mainCheck 0, .catchExit, .quitCb]) (htr : c'.tr = c.tr) : ShapeStep P c c'
+  | loopOff (hc : c.code = [.mainCheck 0, .catchExit, .quitCb]) (hr : c.L.runLoop = false)
+      (hcode : c'.code = [.restoreRun, .catchExit, .quitCb]) (htr : c'.tr = .loopReturn 0 :: c.tr) : ShapeStep P c c'
+  | restored (hc : c.code = [.restoreRun, .catchExit, .quitCb]) (hcode : c'.code = [.catchExit, .quitCb]) (htr : c'.tr = c.tr) :
+      ShapeStep P c c'
+  | leave (hc : c.code = [.catchExit, .quitCb]) (hcode : c'.code = [.quitCb]) (htr : c'.tr = c.tr) : ShapeStep P c c'
+  | quit (hc : c.code = [.quitCb]) (hcode : c'.code = []) (hx : Tr.exit ∉ newTr c c')
+      (hlog : ∃ lg, (∀ e ∈ lg, softE e = true) ∧ c'.log = lg ++ c.L.quitCb.toList.map Ev.quitcb ++ c.log) : ShapeStep P c c'
+  /-- a delivery; the "step" of a configuration without code -/
+  | same (hcode : c'.code = c.code) (hx : Tr.exit ∉ newTr c c') : ShapeStep P c c'
+  /-- the run dies -/
+  | dead (hs : ∃ o, step P c = .error (o, c')) (hcode : c'.code = []) (hx : Tr.exit ∈ newTr c c' → ¬ AfterStart c) : ShapeStep P c c'
+
+theorem ShapeStep.shape {c c' : Cfg} (h : ShapeStep P c c') (hS : Shape c) : Shape c' := by
+  cases h
+  case body B B' T hT hc hB hne hcode hB' hx => exact .inr (.inr (.inr (.inr ⟨B', T, hcode, hB', hT⟩)))
+  case exit hc hB hne hcode hx => exact .inr (.inl hcode)
+  case start hc hcode htr => exact .inr (.inr (.inr (.inr ⟨[], _, hcode, by simp, .inr rfl⟩)))
+  case loopOn hc hr hcode htr => exact .inr (.inr (.inr (.inr ⟨[.loopCheck], _, hcode, by simp [isTop], .inr rfl⟩)))
+  case loopOff hc hr hcode htr => exact .inr (.inr (.inr (.inl hcode)))
+  case restored hc hcode htr => exact .inr (.inr (.inl hcode))
+  case leave hc hcode htr => exact .inr (.inl hcode)
+  case quit hc hcode hx hlog => exact .inl hcode
+  case same hcode hx => unfold Shape; rw [hcode]; exact hS
+  case dead hs hcode hx => exact .inl hcode
+
+theorem open_afterStart {c : Cfg} {B : List Instr} (hc : c.code = B ++ [.mainCheck 0, .catchExit, .quitCb])
+    (hB : ∀ i ∈ B, isTop i = false) : AfterStart c := by
+  rw [AfterStart, hc, List.all_eq_true]
+  intro i hi
+  rcases List.mem_append.mp hi with hi | hi
+  · have := hB i hi; cases i <;> simp_all [isTop, isApprun]
+  · simp at hi; rcases hi with rfl | rfl | rfl <;> rfl
+
+/-- a soft step out of a body instruction -/
+theorem shape_other {P : Prog} {rest B T : List Instr} {ins : Instr} {c m c' : Cfg} (hc : c.code = ins :: rest)
+    (hrest : rest = B ++ T) (hB : ∀ i ∈ B, isTop i = false) (hT : OpenTail T) (hins : isTop ins = false)
+    (hcl : closedB c.code = true) (hm : Soft rest c m) (hf : OtherFin m c') : ShapeStep P c c' := by
+  obtain ⟨d, hd, hds⟩ := hm.tr
+  obtain ⟨⟨B', hB', hmcode⟩, hmcl⟩ := soft_body hc hrest hB hT.tail hcl hm
+  have hc' : c.code = (ins :: B) ++ T := by rw [hc, hrest]; rfl
+  have hB0 : ∀ i ∈ ins :: B, isTop i = false := by
+    intro i hi; rcases List.mem_cons.mp hi with rfl | hi; exact hins; exact hB i hi
+  cases hf
+  case same => exact .body hT hc' hB0 (by simp) hmcode hB' (by rw [mem_newTr hd]; exact soft_no_exit hds)
+  case exit pre rest' hcode' hpre =>
+    rw [hmcode] at hcode'
+    have := shape_exit hB' hT.tail hcode' hpre
+    subst this
+    rcases hT with rfl | rfl
+    · exfalso
+      have : Instr.catchExit ∈ B' ++ [Instr.apprun] := by rw [hcode']; simp
+      simp at this
+      have := hB' _ this; simp [isTop] at this
+    · exact .exit hc' hB0 (by simp) rfl (by rw [mem_newTr (d := .exit :: d) (by simp [hd])]; simp)
+  case err pre x rest' src hcode' hpre hx =>
+    rw [hmcode] at hcode' hmcl
+    obtain ⟨B'', hB'', hafter⟩ := shape_err hB' hT.tail hmcl hcode' hx
+    refine .body hT hc' hB0 (by simp) hafter hB'' ?_
+    rw [mem_newTr (d := enqT m.L (excSig m.nextSid src) :: d) (by simp [excEnq, hd])]
+    intro hm'
+    rcases List.mem_cons.mp hm' with h | h
+    · exact enqT_ne_exit _ _ h.symm
+    · exact soft_no_exit hds h
+
+/-- a core step out of a body instruction -/
+theorem shape_core_body {P : Prog} {rest B T : List Instr} {ins : Instr} {c c' : Cfg} (hc : c.code = ins :: rest)
+    (hrest : rest = B ++ T) (hB : ∀ i ∈ B, isTop i = false) (hT : OpenTail T) (hcl : closedB c.code = true)
+    (hins : isTop ins = false) (h : CoreN P { c with code := rest } ins c') : ShapeStep P c c' := by
+  have hclr : closedB (B ++ T) = true := hrest ▸ closedB_tail (hc ▸ hcl)
+  have hc' : c.code = (ins :: B) ++ T := by rw [hc, hrest]; rfl
+  have hB0 : ∀ i ∈ ins :: B, isTop i = false := by
+    intro i hi; rcases List.mem_cons.mp hi with rfl | hi; exact hins; exact hB i hi
+  have key : ∀ {c'' : Cfg}, CodeC rest c''.code → NoExit c.tr c''.tr → ShapeStep P c c'' := by
+    intro c'' hcode htr
+    obtain ⟨pushed, hcode, hp⟩ := hcode
+    obtain ⟨d, htr, hd⟩ := htr
+    refine .body (B' := pushed ++ B) hT hc' hB0 (by simp) (by rw [hcode, hrest, List.append_assoc]) ?_
+      (by rw [mem_newTr htr]; exact hd)
+    intro i hi
+    rcases List.mem_append.mp hi with hi | hi
+    · exact hp i hi
+    · exact hB i hi
+  cases h
+  case apprun => cases hins
+  case catchExit => cases hins
+  case quitCbSome => cases hins
+  case quitCbNone => cases hins
+  case popErr pre x rest' src h hcode hpre hx =>
+    simp only at hcode
+    rw [hrest] at hcode
+    obtain ⟨B', hB', hafter⟩ := shape_err hB hT.tail hclr hcode hx
+    refine .body hT hc' hB0 (by simp) hafter hB' ?_
+    rw [mem_newTr (d := [enqT c.L (excSig c.nextSid src)]) (by simp [excEnq])]
+    simp [Ne.symm (enqT_ne_exit _ _)]
+  case popExit q pre rest' h h2 hcode hpre =>
+    simp only at hcode
+    rw [hrest] at hcode
+    have := shape_exit hB hT.tail hcode hpre
+    subst this
+    rcases hT with rfl | rfl
+    · exfalso
+      have : Instr.catchExit ∈ B ++ [Instr.apprun] := by rw [hcode]; simp
+      simp at this
+      have := hB _ this; simp [isTop] at this
+    · exact .exit hc' hB0 (by simp) rfl
+        (by rw [mem_newTr (d := [.exit, .closeLevel q]) (by simp)]; simp)
+  all_goals
+    refine key ?_ ?_
+    · codeC_tac
+    · noExit_tac
+
+/-- the cases of a configuration with pending code that has the shape -/
+theorem shape_cases {c : Cfg} {ins : Instr} {rest : List Instr} (hS : Shape c) (hc : c.code = ins :: rest) :
+    (ins = .quitCb ∧ rest = []) ∨ (ins = .catchExit ∧ rest = [.quitCb]) ∨ (ins = .restoreRun ∧ rest = [.catchExit, .quitCb]) ∨
+    (ins = .apprun ∧ rest = []) ∨ (ins = .mainCheck 0 ∧ rest = [.catchExit, .quitCb]) ∨
+    (isTop ins = false ∧ ∃ B T, rest = B ++ T ∧ (∀ i ∈ B, isTop i = false) ∧ OpenTail T) := by
+  rcases hS with h | h | h | h | ⟨body, T, h, hB, hT⟩
+  · rw [hc] at h; cases h
+  · rw [hc] at h; cases h; exact .inl ⟨rfl, rfl⟩
+  · rw [hc] at h; cases h; exact .inr (.inl ⟨rfl, rfl⟩)
+  · rw [hc] at h; cases h; exact .inr (.inr (.inl ⟨rfl, rfl⟩))
+  · rw [hc] at h
+    cases body with
+    | nil =>
+      simp at h
+      rcases hT with rfl | rfl
+      · cases h; exact .inr (.inr (.inr (.inl ⟨rfl, rfl⟩)))
+      · cases h; exact .inr (.inr (.inr (.inr (.inl ⟨rfl, rfl⟩))))
+    | cons b B =>
+      simp at h
+      obtain ⟨rfl, rfl⟩ := h
+      exact .inr (.inr (.inr (.inr (.inr ⟨hB _ (by simp), B, T, rfl, fun i hi => hB i (by simp [hi]), hT⟩))))
+
+/-- a core step of one of the bottom instructions themselves -/
+theorem shape_core_top {P : Prog} {rest : List Instr} {ins : Instr} {c c' : Cfg} (hc : c.code = ins :: rest)
+    (hT : (ins = .quitCb ∧ rest = []) ∨ (ins = .catchExit ∧ rest = [.quitCb]) ∨ (ins = .restoreRun ∧ rest = [.catchExit, .quitCb]) ∨
+      (ins = .apprun ∧ rest = []) ∨ (ins = .mainCheck 0 ∧ rest = [.catchExit, .quitCb]))
+    (h : CoreN P { c with code := rest } ins c') : ShapeStep P c c' := by
+  rcases hT with ⟨rfl, rfl⟩ | ⟨rfl, rfl⟩ | ⟨rfl, rfl⟩ | ⟨rfl, rfl⟩ | ⟨rfl, rfl⟩
+  · cases h
+    case quitCbSome d hd =>
+      have hd' : c.L.quitCb = some d := hd
+      refine .quit hc (by simp [emit_eq]) ?_ ⟨emitLog P ({ c with code := [] } : Cfg) (.quitcb d), softE_emitLog _ _ _, by simp [emit_eq, hd']⟩
+      rw [mem_newTr (d := emitTr P ({ c with code := [] } : Cfg) (.quitcb d)) (by simp [emit_eq])]
+      exact soft_no_exit (softT_emitTr _ _ _)
+    case quitCbNone hd =>
+      have hd' : c.L.quitCb = none := hd
+      exact .quit hc rfl (by simp [Simpleline.newTr]) ⟨[], by simp, by simp [hd']⟩
+  · cases h; exact .leave hc rfl rfl
+  · cases h
+    case restoreFQ hf => exact .restored hc rfl rfl
+    case restore hf => exact .restored hc rfl rfl
+  · cases h; exact .start hc (by simp [push]) (by simp [push])
+  · cases h
+    case mainGo hr => exact .loopOn hc hr (by simp [push]) (by simp [push])
+    case mainExit hr => exact .loopOff hc hr (by simp [push, Cfg.trace]) (by simp [push, Cfg.trace])
+
+theorem otherI_body {ins : Instr} (h : otherI ins = true) :
+    ins ≠ .quitCb ∧ ins ≠ .catchExit ∧ ins ≠ .restoreRun ∧ ins ≠ .apprun ∧ ins ≠ .mainCheck 0 := by
+  cases ins <;> first | (cases h; done) | (refine ⟨?_, ?_, ?_, ?_, ?_⟩ <;> simp)
+
 /-- an exit request that nothing catches: `run()` has not been entered -/
 theorem exit_uncaught_pre {c X c' : Cfg} {o : Outcome} {ins : Instr} {B T : List Instr} (hc : c.code = ins :: (B ++ T))
-    (hT : Tail T) (hX : ∃ B', X.code = B' ++ T) (h : X.raise .exit = .error (o, c')) : ¬ AfterStart c := by
+    (hT : OpenTail T) (hX : ∃ B', X.code = B' ++ T) (h : X.raise .exit = .error (o, c')) : ¬ AfterStart c := by
   obtain ⟨B', hX⟩ := hX
   have hn := raise_exit_error_no_catch h
   rw [hX] at hn
-  have := shape_exit_none hT hn
+  have := shape_exit_none hT.tail hn
   subst this
   exact not_afterStart_of_mem (by rw [hc]; simp)
 
-/-- the shape of the code is preserved by every transition; an exit request leaves only the quit callback, or nothing -/
-theorem shape_trans {P : Prog} {c c' : Cfg} (hS : Shape c) (hcl : closedB c.code = true) (ht : Trans P c c') : ShapeRes c c' := by
+/-- every transition out of a configuration with the shape is one of the `ShapeStep`s -/
+theorem shape_trans {P : Prog} {c c' : Cfg} (hS : Shape c) (hcl : closedB c.code = true) (ht : Trans P c c') : ShapeStep P c c' := by
   cases ht with
   | step hs =>
     obtain ⟨ins, rest, hc, ⟨ho, m, hm, hf⟩ | ⟨ho, hcore⟩⟩ := step_ok_casesN hs
-    · rcases shape_cases hS hc with ⟨rfl, -⟩ | hT | ⟨-, B, T, hrest, hB, hT⟩
-      · cases ho
-      · rw [hT.head_core] at ho; cases ho
-      · exact shape_other hc hrest hB hT hcl hm hf
-    · rcases shape_cases hS hc with h | hT | ⟨hins, B, T, hrest, hB, hT⟩
+    · obtain ⟨g1, g2, g3, g4, g5⟩ := otherI_body ho
+      rcases shape_cases hS hc with ⟨h, -⟩ | ⟨h, -⟩ | ⟨h, -⟩ | ⟨h, -⟩ | ⟨h, -⟩ | ⟨hins, B, T, hrest, hB, hT⟩
+      · exact absurd h g1
+      · exact absurd h g2
+      · exact absurd h g3
+      · exact absurd h g4
+      · exact absurd h g5
+      · exact shape_other hc hrest hB hT hins hcl hm hf
+    · rcases shape_cases hS hc with h | h | h | h | h | ⟨hins, B, T, hrest, hB, hT⟩
       · exact shape_core_top hc (.inl h) hcore
-      · exact shape_core_top hc (.inr hT) hcore
+      · exact shape_core_top hc (.inr (.inl h)) hcore
+      · exact shape_core_top hc (.inr (.inr (.inl h))) hcore
+      · exact shape_core_top hc (.inr (.inr (.inr (.inl h)))) hcore
+      · exact shape_core_top hc (.inr (.inr (.inr (.inr h)))) hcore
       · exact shape_core_body hc hrest hB hT hcl hins hcore
   | deliver hd =>
     obtain ⟨r, rs, hr, rfl⟩ := deliver_eq hd
-    refine ⟨hS, fun hm => ?_⟩
-    rw [newTr_eq (new := [enqT c.L (lineSig c r)]) rfl] at hm
-    simp at hm
-    exact absurd hm.symm (enqT_ne_exit _ _)
+    refine .same rfl ?_
+    rw [mem_newTr (d := [enqT c.L (lineSig c r)]) rfl]
+    simp [Ne.symm (enqT_ne_exit _ _)]
   | halt hs =>
     rcases step_error_cases hs with ⟨-, -, rfl⟩ | ⟨ins, rest, hc, ⟨ho, m, hm, ⟨-, rfl⟩ | ⟨k, -, hk⟩⟩ | ⟨ho, hcore⟩⟩
-    · exact ⟨hS, fun hm => by simp [Simpleline.newTr] at hm⟩
-    · rcases shape_cases hS hc with ⟨rfl, -⟩ | hT | ⟨-, B, T, hrest, hB, hT⟩
-      · cases ho
-      · rw [hT.head_core] at ho; cases ho
-      · exact shape_other hc hrest hB hT hcl hm .same
-    · refine .nil (by rw [(raise_error hk).1]) (fun hx => ?_)
-      rcases shape_cases hS hc with ⟨rfl, -⟩ | hT | ⟨-, B, T, hrest, hB, hT⟩
-      · cases ho
-      · rw [hT.head_core] at ho; cases ho
-      · obtain ⟨⟨B', -, hmcode⟩, -⟩ := soft_body hc hrest hB hT hcl hm
+    · exact .same rfl (by simp [Simpleline.newTr])
+    · obtain ⟨g1, g2, g3, g4, g5⟩ := otherI_body ho
+      rcases shape_cases hS hc with ⟨h, -⟩ | ⟨h, -⟩ | ⟨h, -⟩ | ⟨h, -⟩ | ⟨h, -⟩ | ⟨hins, B, T, hrest, hB, hT⟩
+      · exact absurd h g1
+      · exact absurd h g2
+      · exact absurd h g3
+      · exact absurd h g4
+      · exact absurd h g5
+      · exact shape_other hc hrest hB hT hins hcl hm .same
+    · refine .dead ⟨_, hs⟩ (by rw [(raise_error hk).1]) (fun hx => ?_)
+      obtain ⟨g1, g2, g3, g4, g5⟩ := otherI_body ho
+      rcases shape_cases hS hc with ⟨h, -⟩ | ⟨h, -⟩ | ⟨h, -⟩ | ⟨h, -⟩ | ⟨h, -⟩ | ⟨hins, B, T, hrest, hB, hT⟩
+      · exact absurd h g1
+      · exact absurd h g2
+      · exact absurd h g3
+      · exact absurd h g4
+      · exact absurd h g5
+      · obtain ⟨⟨B', -, hmcode⟩, -⟩ := soft_body hc hrest hB hT.tail hcl hm
         obtain ⟨d, hd, hds⟩ := hm.tr
         cases k
         · exact exit_uncaught_pre (hrest ▸ hc) hT ⟨B', hmcode⟩ hk
-        · rw [(raise_error hk).1, newTr_eq (new := d) (by simp [preRaise, hd])] at hx
+        · rw [(raise_error hk).1, mem_newTr (d := d) (by simp [preRaise, hd])] at hx
           exact absurd hx (soft_no_exit hds)
-        · rw [(raise_error hk).1, newTr_eq (new := d) (by simp [preRaise, hd])] at hx
+        · rw [(raise_error hk).1, mem_newTr (d := d) (by simp [preRaise, hd])] at hx
           exact absurd hx (soft_no_exit hds)
     · cases hcore
       case refuse hne =>
-        rcases shape_cases hS hc with ⟨h, -⟩ | hT | ⟨hins, -⟩
+        rcases shape_cases hS hc with ⟨h, -⟩ | ⟨h, -⟩ | ⟨h, -⟩ | ⟨-, h⟩ | ⟨h, -⟩ | ⟨hins, -⟩
         · cases h
-        · cases hT; exact .nil rfl (fun hx => by simp [Simpleline.newTr] at hx)
+        · cases h
+        · cases h
+        · subst h; exact .dead ⟨_, hs⟩ rfl (fun hx => by simp [Simpleline.newTr] at hx)
+        · cases h
         · cases hins
       case getBlocked h =>
-        rcases shape_cases hS hc with ⟨h', -⟩ | hT | ⟨hins, B, T, hrest, hB, hT⟩
+        rcases shape_cases hS hc with ⟨h', -⟩ | ⟨h', -⟩ | ⟨h', -⟩ | ⟨h', -⟩ | ⟨h', -⟩ | ⟨hins, B, T, hrest, hB, hT⟩
         · cases h'
-        · cases hT
-        · obtain ⟨-, h | h, -, -⟩ := take_error h
-          · subst h; exact .body (d := []) hrest hB hT rfl (by simp)
-          · obtain ⟨r, rs, hr, rfl⟩ := deliver_eq h
-            exact .body (d := [enqT c.L (lineSig { c with code := rest } r)]) hrest hB hT rfl
-              (by simp [Ne.symm (enqT_ne_exit _ _)])
-      case waitBlocked hrl h =>
-        rcases shape_cases hS hc with ⟨h', -⟩ | hT | ⟨hins, B, T, hrest, hB, hT⟩
         · cases h'
-        · cases hT
-        · obtain ⟨-, h | h, -, -⟩ := take_error h
-          · subst h; exact .body (d := []) hrest hB hT rfl (by simp)
+        · cases h'
+        · cases h'
+        · cases h'
+        · have hc' : c.code = (Instr.getDispatch :: B) ++ T := by rw [hc, hrest]; rfl
+          have hB0 : ∀ i ∈ Instr.getDispatch :: B, isTop i = false := by
+            intro i hi; rcases List.mem_cons.mp hi with rfl | hi; rfl; exact hB i hi
+          obtain ⟨-, h | h, -, -⟩ := take_error h
+          · subst h; exact .body hT hc' hB0 (by simp) hrest hB (by simp [Simpleline.newTr])
           · obtain ⟨r, rs, hr, rfl⟩ := deliver_eq h
-            exact .body (d := [enqT c.L (lineSig { c with code := rest } r)]) hrest hB hT rfl
-              (by simp [Ne.symm (enqT_ne_exit _ _)])
+            refine .body hT hc' hB0 (by simp) hrest hB ?_
+            rw [mem_newTr (d := [enqT c.L (lineSig { c with code := rest } r)]) rfl]
+            simp [Ne.symm (enqT_ne_exit _ _)]
+      case waitBlocked cls t hrl h =>
+        rcases shape_cases hS hc with ⟨h', -⟩ | ⟨h', -⟩ | ⟨h', -⟩ | ⟨h', -⟩ | ⟨h', -⟩ | ⟨hins, B, T, hrest, hB, hT⟩
+        · cases h'
+        · cases h'
+        · cases h'
+        · cases h'
+        · cases h'
+        · have hc' : c.code = (Instr.waitStep cls t :: B) ++ T := by rw [hc, hrest]; rfl
+          have hB0 : ∀ i ∈ Instr.waitStep cls t :: B, isTop i = false := by
+            intro i hi; rcases List.mem_cons.mp hi with rfl | hi; rfl; exact hB i hi
+          obtain ⟨-, h | h, -, -⟩ := take_error h
+          · subst h; exact .body hT hc' hB0 (by simp) hrest hB (by simp [Simpleline.newTr])
+          · obtain ⟨r, rs, hr, rfl⟩ := deliver_eq h
+            refine .body hT hc' hB0 (by simp) hrest hB ?_
+            rw [mem_newTr (d := [enqT c.L (lineSig { c with code := rest } r)]) rfl]
+            simp [Ne.symm (enqT_ne_exit _ _)]
       case kill =>
-        refine .nil rfl (fun hx => ?_)
-        rw [newTr_eq (new := [.kill]) (by simp [Cfg.trace, Cfg.write])] at hx
+        refine .dead ⟨_, hs⟩ rfl (fun hx => ?_)
+        rw [mem_newTr (d := [.kill]) (by simp [Cfg.trace, Cfg.write])] at hx
         simp at hx
       case popErr h hr =>
-        refine .nil (by rw [(raise_error hr).1]) (fun hx => ?_)
-        rw [(raise_error hr).1, newTr_eq (new := []) (by simp [preRaise])] at hx
+        refine .dead ⟨_, hs⟩ (by rw [(raise_error hr).1]) (fun hx => ?_)
+        rw [(raise_error hr).1, mem_newTr (d := []) (by simp [preRaise])] at hx
         simp at hx
       case popExit q h h2 hr =>
-        refine .nil (by rw [(raise_error hr).1]) (fun _ => ?_)
-        rcases shape_cases hS hc with ⟨h', -⟩ | hT | ⟨hins, B, T, hrest, hB, hT⟩
+        refine .dead ⟨_, hs⟩ (by rw [(raise_error hr).1]) (fun _ => ?_)
+        rcases shape_cases hS hc with ⟨h', -⟩ | ⟨h', -⟩ | ⟨h', -⟩ | ⟨h', -⟩ | ⟨h', -⟩ | ⟨hins, B, T, hrest, hB, hT⟩
         · cases h'
-        · cases hT
+        · cases h'
+        · cases h'
+        · cases h'
+        · cases h'
         · exact exit_uncaught_pre (hrest ▸ hc) hT ⟨B, hrest⟩ hr
-
 
 theorem Shape.init (init : List Act) (handlers : List (Cls × HRef × Option Nat)) (quitCb : Option Nat) (stdin : List Str) :
     Shape (initCfg init handlers quitCb stdin) :=
-  .inr (.inr ⟨init.map .act, [.apprun], rfl, by simp [isTop], .pre⟩)
+  .inr (.inr (.inr (.inr ⟨init.map .act, [.apprun], rfl, by simp [isTop], .inl rfl⟩)))
 
 theorem shape_reach {P : Prog} {c0 c : Cfg} (h0 : Started c0) (hr : Reach P c0 c) : Shape c := by
   refine reach_induction ?_ ?_ hr
   · obtain ⟨i, h, q, s, rfl⟩ := h0; exact .init i h q s
   · intro c c' hr hI ht
-    exact (shape_trans hI (codeInv_reach h0 hr).closed ht).1
+    exact (shape_trans hI (codeInv_reach h0 hr).closed ht).shape hI
 
-/-- once only the quit callback (or nothing) is left, nothing else ever runs -/
-theorem over_trans {P : Prog} {c c' : Cfg} (h : c.code = [.quitCb] ∨ c.code = []) (ht : Trans P c c') :
-    c'.code = [.quitCb] ∨ c'.code = [] := by
-  cases ht with
-  | step hs =>
-    obtain ⟨ins, rest, hc, ⟨ho, m, hm, hf⟩ | ⟨ho, hcore⟩⟩ := step_ok_casesN hs
-    · rcases h with h | h <;> rw [hc] at h <;> cases h; cases ho
-    · rcases h with h | h <;> rw [hc] at h <;> cases h
-      cases hcore
-      · exact .inr (by simp [emit_eq])
-      · exact .inr rfl
-  | deliver hd => rw [(deliver_frame hd).2]; exact h
-  | halt hs =>
-    rcases step_error_cases hs with ⟨-, -, rfl⟩ | ⟨ins, rest, hc, ⟨ho, -⟩ | ⟨ho, hcore⟩⟩
-    · exact h
-    · rcases h with h | h <;> rw [hc] at h <;> cases h; cases ho
-    · rcases h with h | h <;> rw [hc] at h <;> cases h
-      cases hcore
-
-/-- after an exit request only the quit callback is left to run, or nothing -/
-theorem exit_over_reach {P : Prog} {c0 c : Cfg} (h0 : Started c0) (hr : Reach P c0 c) (hm : Tr.exit ∈ c.tr) :
-    c.code = [.quitCb] ∨ c.code = [] := by
-  revert hm
-  refine reach_induction (motive := fun c => Tr.exit ∈ c.tr → c.code = [.quitCb] ∨ c.code = []) ?_ ?_ hr
-  · obtain ⟨i, h, q, s, rfl⟩ := h0
-    intro hm; simp [initCfg] at hm
-  · intro c c' hr hI ht hm
-    obtain ⟨hnew, -⟩ := (trans_origin ht).toNewTr
-    rw [hnew] at hm
-    rcases List.mem_append.mp hm with hm | hm
-    · exact ((shape_trans (shape_reach h0 hr) (codeInv_reach h0 hr).closed ht).2 hm).imp id And.left
-    · exact over_trans (hI hm) ht
+/-- the classification of the transitions out of a reachable configuration -/
+theorem shapeStep_reach {P : Prog} {c0 c c' : Cfg} (h0 : Started c0) (hr : Reach P c0 c) (ht : Trans P c c') : ShapeStep P c c' :=
+  shape_trans (shape_reach h0 hr) (codeInv_reach h0 hr).closed ht
 
 end Simpleline.Dispatch
